@@ -84,6 +84,10 @@ def run(cx):
             if f and kind == "cyclic" and a.get("k") == "crash" and "stack exceeds" in stderr and is_known_cyclic(src, f):
                 cx.report_known(f)
                 continue
+            f2 = known.get("builtin-self-recursion")
+            if f2 and a.get("k") == "crash" and "stack exceeds" in stderr and src.strip() in [w.strip() for w in f2["witness"]["srcs"]]:
+                cx.report_known(f2)
+                continue
             bad_total += 1
             sig = (a.get("k"), a.get("stage"), re.sub(r"0x[0-9a-f]+|\d+", "N", (a.get("msg") or stderr)[:80]))
             if sig in reported:
